@@ -1745,20 +1745,26 @@ class StateEngine(object):
                         event, type(e).__name__, str(e), traceback.format_exc()
                     )
             self.logger.error(message)
-            handle_error(state, "States.Runtime", message)
+            try:
+                handle_error(state, "States.Runtime", message)
+            except Exception:
+                # The Retry/Catch fields of the state cannot be interpreted
+                # either, so fail the execution without consulting them.
+                handle_error({}, "States.Runtime", message)
             self.event_dispatcher.acknowledge(id)
 
         def guarded(handler):
             """
             The Task, Map and Parallel states do their work in delegates that
             run from a timeout (immediately, or when a retry interval has
-            passed), that is to say outside the try block in notify() that
-            calls the state handlers. Wrap them so that an exception raised
-            there fails the execution in the same way.
+            passed), and the Task and Wait states complete in callbacks, that
+            is to say outside the try block in notify() that calls the state
+            handlers. Wrap them so that an exception raised there fails the
+            execution in the same way.
             """
-            def run():
+            def run(*args):
                 try:
-                    handler()
+                    handler(*args)
                 except Exception as e:
                     handle_exception(e)
             return run
@@ -2181,7 +2187,7 @@ class StateEngine(object):
                 self.task_dispatcher.execute_task(
                     resource_arn,
                     parameters,
-                    on_response,
+                    guarded(on_response),
                     timeout,
                     is_task_timeout,
                     context,
@@ -2639,9 +2645,11 @@ class StateEngine(object):
                 the on_timeout function's closure, so when the timeout fires the
                 correct event should be published and the correct id acknowledged.
                 """
-                timeout_id = self.event_dispatcher.set_timeout(on_timeout, timeout)
+                timeout_id = self.event_dispatcher.set_timeout(
+                    guarded(on_timeout), timeout
+                )
                 self.task_dispatcher.set_timeout_canceller(
-                    id, timeout_id, on_timeout, context["Execution"]["Id"]
+                    id, timeout_id, guarded(on_timeout), context["Execution"]["Id"]
                 )
             except PathMatchFailure as e:
                 handle_error(state, "States.Runtime", str(e))
